@@ -457,7 +457,23 @@ def impl_daily_class(rs, z, elec, how):
             valid = [i for i, r in enumerate(rs) if r[1] is not None]
             rows = rs[valid[0]:valid[-1] + 1]
             s = series_of(rs, z, "observed")
-            d = cls.from_series(s, temp_series(rs[0][0], rs[-1][0], z), is_electricity_data=elec)
+
+            class Capture(cls):
+                """from_series builds a frame and hands it to the constructor: the frame is observed here (that step -
+                edge trimming, the billing-like branch for sparse series - is not modelled)"""
+                df_in = None
+
+                def __init__(self, df, is_electricity_data):
+                    Capture.df_in = df.copy()
+                    super().__init__(df, is_electricity_data)
+            try:
+                d = Capture.from_series(s, temp_series(rs[0][0], rs[-1][0], z), is_electricity_data=elec)
+            finally:
+                if Capture.df_in is not None:
+                    col = Capture.df_in["observed"].to_numpy()
+                    idx = minutes_of(Capture.df_in.index)
+                    keep = sorted({i for i, v in enumerate(col) if v == v} | {0, len(idx) - 1})
+                    rows = [(idx[i], fr(col[i])) for i in keep]
         frame = d.df
     except Exception as e:  # noqa
         name = type(e).__name__
@@ -948,7 +964,7 @@ class Streams:
                                 case_type=CASE_TYPE[stream])
             run.log("stream %s: %d cases, %.1fs" % (stream, len(lst), _t.time() - t_s))
             return stream, bad
-        with ThreadPoolExecutor(max_workers=4) as ex:
+        with ThreadPoolExecutor(max_workers=4 if run.tier == "quick" else 1) as ex:   # thorough: 12 coqc at a time
             results = list(ex.map(one, list(self.items)))
         for stream, bad in results:
             lst = self.items[stream]
@@ -1237,7 +1253,8 @@ def process_billing(run, st, cs):
             billed = [t for t, v in per if v is not None and not (cs["elec"] and v == 0)]
             _, inf_in = parse_inferred(tz_index(billed + ([cs["stamps"][-1]] if cs["format"] == "from_series" else []), z))
             _, inf_in2 = parse_inferred(tz_index(billed, z))
-            weekly = "Week" in obs[2] and any(re.match(r"\d*W", x or "") for x in (inf_in, inf_in2))
+            _, inf_in3 = parse_inferred(tz_index(list(cs["stamps"]), z))      # from_series looks at the whole meter index
+            weekly = "Week" in obs[2] and any(re.match(r"\d*W", x or "") for x in (inf_in, inf_in2, inf_in3))
             sig = {"path": "billing-data-class", "raised": "TypeError",
                    "cause": "regular-cycle-inferred-as-weekly" if weekly else "other"}
         else:
@@ -1390,10 +1407,10 @@ def main():
     run.finish()
 
 
-N_SUB = (110, 6000)
-N_DAILY = (25, 1500)
-N_BILL = (70, 4000)
-N_GRAN = (150, 5000)
+N_SUB = (110, 3000)
+N_DAILY = (25, 800)
+N_BILL = (70, 2000)
+N_GRAN = (150, 3000)
 
 
 def warm_imports():
